@@ -52,6 +52,8 @@ def tasks(tier):
         ("loadcases 2d, two cell-less points", "run_loadcases", dict(dim=2, orphan="two")),
         ("loadcases 3d, two cell-less points", "run_loadcases", dict(dim=3, orphan="two")),
         # where the set of points without cells comes from, and the dual meshes mixed containers are built on
+        ("three fields 2d", "run_three_fields", dict(dim=2)),
+        ("three fields 3d", "run_three_fields", dict(dim=3)),
         ("points without cells", "run_discrete_geometry", {}),
         ("dual mesh", "run_dual_mesh", {}),
     ]
@@ -461,6 +463,55 @@ def run_loadcases(col, dim, orphan="last"):
                     pres[dim * p + axes[0]] = s0
                 compare("axes=%s sym=%s given=%s" % (axes, symflag, given), lc, pres, "shear")
     col.info["loadcase_configs"] = col.info.get("loadcase_configs", 0) + count
+    finish_info(col, it)
+
+
+def run_three_fields(col, dim):
+    """O3/O4 on a container with three fields (u, p, J) of different sizes: boundaries on the second and on the third field land at the
+    cumulative offsets n_u and n_u + n_p"""
+    it = new_interp()
+    mesh = LatticeMesh(dim, "last")
+    F = it.get("felupe.field._base:Field")
+    B = it.get("felupe.dof._boundary:Boundary")
+    part = it.get("felupe.dof._tools:partition")
+    appl = it.get("felupe.dof._tools:apply")
+    fields, names = [], ("U", "Pp", "Jj")
+    for k, d_ in enumerate((dim, 1, 1)):
+        f = it.call(F, [LatticeRegion(LatticeMesh(dim, "last"))], dict(dim=d_))
+        it.setattr(f, "values", symarray(names[k], (mesh.npoints, d_)))
+        fields.append(f)
+    fc = micro.container(it, fields)
+    sizes = [mesh.npoints * dim, mesh.npoints, mesh.npoints]
+    offs = [0, sizes[0], sizes[0] + sizes[1]]
+    ntot = sum(sizes)
+    uflat = sum((npmodel.to_obj(f.attrs["values"]).reshape(-1).tolist() for f in fields), [])
+    va, vb, vc, vd = sym("va"), sym("vb"), sym("vc"), sym("vd")
+    pm = np.array([p % 4 == 1 for p in range(mesh.npoints)])
+    bounds = {"u": it.call(B, [fields[0]], dict(fx=0, value=va)), "p": it.call(B, [fields[1]], dict(fx=1, value=vb)),
+              "J": it.call(B, [fields[2]], dict(fy=0, value=vc)), "J2": it.call(B, [fields[2]], dict(mask=pm, value=vd))}
+    pres = {}
+    for p in selected_points(mesh, dict(fx=Fraction(0))):
+        for i in range(dim):
+            pres[offs[0] + dim * p + i] = va
+    for p in selected_points(mesh, dict(fx=Fraction(1))):
+        pres[offs[1] + p] = vb
+    for p in selected_points(mesh, dict(fy=Fraction(0))):
+        pres[offs[2] + p] = vc
+    for p in range(mesh.npoints):
+        if pm[p]:
+            pres[offs[2] + p] = vd
+    missing = [dim * o + i for o in mesh.orphans for i in range(dim)] + [offs[1] + o for o in mesh.orphans] + [offs[2] + o for o in mesh.orphans]
+    w0 = sorted(set(pres) | set(missing))
+    we = [pres.get(k, uflat[k]) for k in w0]
+    d0, d1 = it.call(part, [fc, bounds], {})
+    d0 = npmodel.to_int_array(np.asarray(d0)).tolist()
+    d1 = npmodel.to_int_array(np.asarray(d1)).tolist()
+    e0 = npmodel.to_obj(np.asarray(it.call(appl, [fc, bounds, np.array(d0, dtype=int)], {}))).reshape(-1)
+    col.add("C08.O3", "partition dim=%d three fields (u, p, J)" % dim, "the unknowns of the n-th field start at the sum of the sizes of all fields before it", d0 == w0 and sorted(d0 + d1) == list(range(ntot)),
+            "dof/_tools.py partition: dof0 %s expected %s" % (d0[:10], w0[:10]))
+    okv = len(e0) == len(we) and all(is_zero(P(a) - P(b)) for a, b in zip(e0, we))
+    col.add("C08.O4", "apply dim=%d three fields (u, p, J)" % dim, "a boundary on the third field writes its value at offset n_u + n_p + its unknown", okv,
+            "dof/_tools.py apply: %s" % [(k, str(a), str(b)) for k, (a, b) in enumerate(zip(e0, we)) if not is_zero(P(a) - P(b))][:3])
     finish_info(col, it)
 
 
